@@ -2,9 +2,12 @@
   Driver glue for C20. Case lines (tokens the model does not need are marked ·):
 
   c20.spam <thr> <unban> <intervalNs> <rulesNil> <nExc> <checkSourceName>… <nRules> <ruleThr>…
-           <defs·> <nOps> op…
-      op = e <id> <name·> <isNew> <timeNs> <event·> <meta·> <excbits> <rulebits>   |   m
-      excbits: 2 chars per exception (Match(event), Match(name)), `-` if none; rulebits: 1 char per rule
+           <defs·> (per exception: <isOr> <nRules> (<mode> <ci> <inv> <nVals> <value>…)…)
+           <nLower> (<bytes> <lowered>)… <nOps> op…
+      op = e <id> <name> <isNew> <timeNs> <event> <meta·> <excbits·> <rulebits>   |   m
+      the exception results are computed here from the rule sets (model of matchrule for M, the
+      literal reading for P); excbits (the library's answers) are only re-checked by exec;
+      rulebits: 1 char per rule (doif oracle)
     impl: per op `0|1`  or  `B <k> (<id> <counter>)… A <k> (<id> <counter>)…` (all source counters
           before / after the round); then `D <k> …` (Dump(): counters >= default threshold)
 
@@ -13,10 +16,16 @@
       rec = <sourceID> <name·> <cur> <streamOff|x> <isNew> <hasMeta> <metaKey> <metaVal> <pass> <data>
             <nCand> (<bytes> <excbits> (E | V <tree>))…
     impl: per record `r` | `d <tree>`
+
+  c20.mr <isOr> <nRules> (<mode 0 prefix|1 contains|2 suffix> <ci> <invert> <nVals> <value>…)… <data>
+         <nLower> (<bytes> <lowered bytes>)…
+      the (bytes, lowered) table is the ToLower oracle for every byte string the code lowers
+    impl: `0|1` (RuleSet.Match) | panic:<kind>
 -/
 import FileD.Prelude.Tok
 import FileD.Model.Antispam
 import FileD.Model.Admission
+import FileD.Model.MatchRule
 import FileD.Spec.C20
 namespace FileD.DrvC20
 open FileD Tok
@@ -36,89 +45,6 @@ def takeN {α} (p : String → Option α) : Nat → List String → Option (List
     let x ← p t
     let (xs, r) ← takeN p n ts
     pure (x :: xs, r)
-
-/-! ### c20.spam -/
-
-def parseOps : Nat → List String → Option (List Antispam.Op × List String)
-  | 0, ts => some ([], ts)
-  | n+1, "m" :: ts => do
-    let (ops, r) ← parseOps n ts
-    pure (.maint :: ops, r)
-  | n+1, "e" :: id :: _name :: nw :: tm :: _ev :: _meta :: eb :: rb :: ts => do
-    let id ← bytes? id
-    let nw ← bool? nw
-    let tm ← int? tm
-    let eb ← bits? eb
-    let rb ← bits? rb
-    let (ops, r) ← parseOps n ts
-    pure (.event { id := id, isNew := nw, time := tm, excM := pairs eb, ruleM := rb } :: ops, r)
-  | _, _ => none
-
-def encDump (tag : String) (d : List (Bytes × Int)) : String :=
-  unwords (tag :: toString d.length :: d.flatMap (fun x => [Hex.enc x.1, toString x.2]))
-
-def parseDump (tag : String) : List String → Option (List (Bytes × Int) × List String)
-  | t :: n :: ts =>
-    if t ≠ tag then none else do
-    let k ← nat? n
-    let rec go : Nat → List String → Option (List (Bytes × Int) × List String)
-      | 0, ts => some ([], ts)
-      | k+1, id :: c :: ts => do
-        let id ← bytes? id
-        let c ← int? c
-        let (r, ts') ← go k ts
-        pure ((id, c) :: r, ts')
-      | _, _ => none
-    go k ts
-  | _ => none
-
-/-- the model's result tokens for a run -/
-def runSpam (cfg : Antispam.Cfg) : Antispam.State → List Antispam.Op → List String
-  | st, [] => [encDump "D" (Antispam.dump cfg st)]
-  | st, .event e :: ops =>
-    ofBool (Antispam.isSpam cfg st e).1 :: runSpam cfg (Antispam.isSpam cfg st e).2 ops
-  | st, .maint :: ops =>
-    let st' := Antispam.maintenance cfg st
-    encDump "B" (Antispam.dumpAll st) :: encDump "A" (Antispam.dumpAll st') :: runSpam cfg st' ops
-
-/-- the implementation's observations (final dump dropped) -/
-def parseObs : List Antispam.Op → List String → Option (List SpecC20.Obs)
-  | [], ts => (parseDump "D" ts).bind fun (_, r) => if r = [] then some [] else none
-  | .event _ :: ops, t :: ts => do
-    let a ← bool? t
-    let r ← parseObs ops ts
-    pure (.ans a :: r)
-  | .maint :: ops, ts => do
-    let (b, r1) ← parseDump "B" ts
-    let (a, r2) ← parseDump "A" r1
-    let r ← parseObs ops r2
-    pure (.maint b a :: r)
-  | _, _ => none
-
-def handleSpam (args impl : List String) : Option (String × String) :=
-  match args with
-  | thr :: ub :: iv :: rn :: rest => do
-    let thr ← int? thr
-    let ub ← int? ub
-    let iv ← int? iv
-    let rn ← bool? rn
-    let (excs, r1) ← listOf bool? rest
-    let (rules, r2) ← listOf int? r1
-    match r2 with
-    | _defs :: nops :: r3 =>
-      let n ← nat? nops
-      let (ops, r4) ← parseOps n r3
-      if r4 ≠ [] then none
-      let cfg : Antispam.Cfg := ⟨thr, ub, iv, rn, excs, rules⟩
-      let m := unwords (runSpam cfg Antispam.init ops)
-      let p := match parseObs ops impl with
-        | some obs => SpecC20.verdictTok (SpecC20.holdsSpam cfg ops obs)
-        | none => match impl with
-          | t :: _ => if t.startsWith "panic" then "fail" else "bad-impl"
-          | [] => "bad-impl"
-      pure (m, p)
-    | _ => none
-  | _ => none
 
 /-! ### c20.in -/
 
@@ -208,7 +134,203 @@ def handleIn (args impl : List String) : Option (String × String) :=
     | _ => none
   | _ => none
 
+/-! ### c20.mr -/
+
+def parseRules : Nat → List String → Option (List MatchRule.Rule × List String)
+  | 0, ts => some ([], ts)
+  | n+1, md :: ci :: inv :: ts => do
+    let mode ← if md = "0" then some MatchRule.Mode.pre else if md = "1" then some MatchRule.Mode.contains
+               else if md = "2" then some MatchRule.Mode.suf else none
+    let ci ← bool? ci
+    let inv ← bool? inv
+    let (vals, r1) ← listOf bytes? ts
+    let (rest, r2) ← parseRules n r1
+    pure (⟨vals, mode, ci, inv⟩ :: rest, r2)
+  | _, _ => none
+
+def parsePairs : Nat → List String → Option (List (Bytes × Bytes) × List String)
+  | 0, ts => some ([], ts)
+  | n+1, a :: b :: ts => do
+    let a ← bytes? a
+    let b ← bytes? b
+    let (rest, r) ← parsePairs n ts
+    pure ((a, b) :: rest, r)
+  | _, _ => none
+
+def lookupLower (tbl : List (Bytes × Bytes)) (b : Bytes) : Option Bytes :=
+  match tbl with
+  | [] => none
+  | (k, v) :: r => if k = b then some v else lookupLower r b
+
+/-- every byte string the model lowers for this rule must be in the table -/
+def lowerCovered (tbl : List (Bytes × Bytes)) (r : MatchRule.Rule) (raw : Bytes) : Bool :=
+  !r.ci ||
+  (r.values.all (fun v => (lookupLower tbl v).isSome) &&
+   (let lower : Bytes → Bytes := fun b => match lookupLower tbl b with | some l => l | none => b
+    let M := MatchRule.maxLen (MatchRule.prepared lower r)
+    (lookupLower tbl raw).isSome && (lookupLower tbl (raw.take M)).isSome &&
+      (lookupLower tbl (raw.drop (raw.length - M))).isSome))
+
+def handleMr (args impl : List String) : Option (String × String) :=
+  match args with
+  | isOr :: nr :: rest => do
+    let isOr ← bool? isOr
+    let n ← nat? nr
+    let (rules, r1) ← parseRules n rest
+    match r1 with
+    | data :: nl :: r2 =>
+      let raw ← bytes? data
+      let k ← nat? nl
+      let (tbl, r3) ← parsePairs k r2
+      if r3 ≠ [] then none
+      let lower : Bytes → Bytes := fun b => match lookupLower tbl b with | some l => l | none => b
+      let m := if !(rules.all (lowerCovered tbl · raw)) then "oracle-miss" else
+        match MatchRule.rsMatch lower isOr rules raw with
+        | .ok b => ofBool b
+        | .error p => panicTok p
+      let p := if SpecC20.holdsMr lower isOr rules raw (unwords impl) then "ok" else "fail"
+      pure (m, p)
+    | _ => none
+  | _ => none
+
+/-! ### c20.spam -/
+
+/-- an exception: `Cond == CondOr`, its rules -/
+abbrev Exc := Bool × List MatchRule.Rule
+
+def parseExcs : Nat → List String → Option (List Exc × List String)
+  | 0, ts => some ([], ts)
+  | n+1, isOr :: nr :: ts => do
+    let isOr ← bool? isOr
+    let k ← nat? nr
+    let (rules, r1) ← parseRules k ts
+    let (rest, r2) ← parseExcs n r1
+    pure ((isOr, rules) :: rest, r2)
+  | _, _ => none
+
+/-- model: the exception's `RuleSet.Match` (model of matchrule) on the event bytes and on the name -/
+def bitsModel (lower : Bytes → Bytes) (excs : List Exc) (event name : Bytes) : List (Bool × Bool) :=
+  excs.map fun x =>
+    let f := fun d => match MatchRule.rsMatch lower x.1 x.2 d with | .ok b => b | .error _ => false
+    (f event, f name)
+
+/-- spec: the literal reading; where the spec says nothing (lowering not length-preserving) the model's -/
+def bitsSpec (lower : Bytes → Bytes) (excs : List Exc) (event name : Bytes) : List (Bool × Bool) :=
+  excs.map fun x =>
+    let f := fun d =>
+      if x.2.any (fun r => r.values.isEmpty) || !(x.2.all (SpecC20.lowerNiceB lower · d)) then
+        (match MatchRule.rsMatch lower x.1 x.2 d with | .ok b => b | .error _ => false)
+      else SpecC20.specRuleSet lower x.1 x.2 d
+    (f event, f name)
+
+/-- ops with the exception bits computed by `bits` from the event bytes and the source name -/
+def parseOps (bits : Bytes → Bytes → List (Bool × Bool)) :
+    Nat → List String → Option (List Antispam.Op × List String)
+  | 0, ts => some ([], ts)
+  | n+1, "m" :: ts => do
+    let (ops, r) ← parseOps bits n ts
+    pure (.maint :: ops, r)
+  | n+1, "e" :: id :: name :: nw :: tm :: ev :: _meta :: _eb :: rb :: ts => do
+    let id ← bytes? id
+    let name ← bytes? name
+    let nw ← bool? nw
+    let tm ← int? tm
+    let ev ← bytes? ev
+    let rb ← bits? rb
+    let (ops, r) ← parseOps bits n ts
+    pure (.event { id := id, isNew := nw, time := tm, excM := bits ev name, ruleM := rb } :: ops, r)
+  | _, _ => none
+
+def encDump (tag : String) (d : List (Bytes × Int)) : String :=
+  unwords (tag :: toString d.length :: d.flatMap (fun x => [Hex.enc x.1, toString x.2]))
+
+def parseDump (tag : String) : List String → Option (List (Bytes × Int) × List String)
+  | t :: n :: ts =>
+    if t ≠ tag then none else do
+    let k ← nat? n
+    let rec go : Nat → List String → Option (List (Bytes × Int) × List String)
+      | 0, ts => some ([], ts)
+      | k+1, id :: c :: ts => do
+        let id ← bytes? id
+        let c ← int? c
+        let (r, ts') ← go k ts
+        pure ((id, c) :: r, ts')
+      | _, _ => none
+    go k ts
+  | _ => none
+
+/-- the model's result tokens for a run -/
+def runSpam (cfg : Antispam.Cfg) : Antispam.State → List Antispam.Op → List String
+  | st, [] => [encDump "D" (Antispam.dump cfg st)]
+  | st, .event e :: ops =>
+    ofBool (Antispam.isSpam cfg st e).1 :: runSpam cfg (Antispam.isSpam cfg st e).2 ops
+  | st, .maint :: ops =>
+    let st' := Antispam.maintenance cfg st
+    encDump "B" (Antispam.dumpAll st) :: encDump "A" (Antispam.dumpAll st') :: runSpam cfg st' ops
+
+/-- the implementation's observations (final dump dropped) -/
+def parseObs : List Antispam.Op → List String → Option (List SpecC20.Obs)
+  | [], ts => (parseDump "D" ts).bind fun (_, r) => if r = [] then some [] else none
+  | .event _ :: ops, t :: ts => do
+    let a ← bool? t
+    let r ← parseObs ops ts
+    pure (.ans a :: r)
+  | .maint :: ops, ts => do
+    let (b, r1) ← parseDump "B" ts
+    let (a, r2) ← parseDump "A" r1
+    let r ← parseObs ops r2
+    pure (.maint b a :: r)
+  | _, _ => none
+
+/-- everything the model lowers is in the table: per CI rule, its values and the cuts of each data -/
+def spamLowerCovered (tbl : List (Bytes × Bytes)) (excs : List Exc) (datas : List Bytes) : Bool :=
+  excs.all fun x => x.2.all fun r => datas.all fun d => lowerCovered tbl r d
+
+def opDatas : List String → List Bytes
+  | "e" :: _ :: name :: _ :: _ :: ev :: ts =>
+    (match bytes? name, bytes? ev with | some n, some e => [e, n] | _, _ => []) ++ opDatas ts
+  | _ :: ts => opDatas ts
+  | [] => []
+
+def handleSpam (args impl : List String) : Option (String × String) :=
+  match args with
+  | thr :: ub :: iv :: rn :: rest => do
+    let thr ← int? thr
+    let ub ← int? ub
+    let iv ← int? iv
+    let rn ← bool? rn
+    let (excs, r1) ← listOf bool? rest
+    let (rules, r2) ← listOf int? r1
+    match r2 with
+    | _defs :: r3 =>
+      let (xs, r4) ← parseExcs excs.length r3
+      match r4 with
+      | nl :: r5 =>
+        let k ← nat? nl
+        let (tbl, r6) ← parsePairs k r5
+        match r6 with
+        | nops :: r7 =>
+          let n ← nat? nops
+          let lower : Bytes → Bytes := fun b => match lookupLower tbl b with | some l => l | none => b
+          let (opsM, r8) ← parseOps (bitsModel lower xs) n r7
+          if r8 ≠ [] then none
+          let (opsS, _) ← parseOps (bitsSpec lower xs) n r7
+          let cfg : Antispam.Cfg := ⟨thr, ub, iv, rn, excs, rules⟩
+          let m := if !spamLowerCovered tbl xs (opDatas r7) then "oracle-miss"
+                   else unwords (runSpam cfg Antispam.init opsM)
+          let p := match parseObs opsS impl with
+            | some obs => SpecC20.verdictTok (SpecC20.holdsSpam cfg opsS obs)
+            | none => match impl with
+              | t :: _ => if t.startsWith "panic" then "fail" else "bad-impl"
+              | [] => "bad-impl"
+          pure (m, p)
+        | _ => none
+      | _ => none
+    | _ => none
+  | _ => none
+
 def handle (cmd : String) (args impl : List String) : Option (String × String) :=
+  if cmd = "c20.mr" then handleMr args impl else
   if cmd = "c20.spam" then handleSpam args impl
   else if cmd = "c20.in" then handleIn args impl
   else none
